@@ -77,7 +77,7 @@ EVENT_FOCUS = [['gen_evt'], ['create_evt', 'gen_pre'], ['create', 'gen_evt', 'cr
                ['assign', 'create_evt', 'if', 'gen_pre']]
 
 
-def generate(ctx, n_quick=1500):
+def generate(ctx, n_quick=1350, multi=True):
     rng = ctx.rng.fork('focus')
     per = ctx.pick(3, 30)
     for fi, feats in enumerate(FOCUS):
@@ -89,6 +89,13 @@ def generate(ctx, n_quick=1500):
             for j in range(per):
                 yield _case(rng.fork('e', fi, home, j), 0, home, rng.fork('e', fi, home, j, 's').randint(2, 6),
                             set(feats), events=True)
+    rng = ctx.rng.fork('multi')
+    for i in range(ctx.pick(40, 1000) if multi else 0):
+        r = rng.fork(i)
+        common = r.random() < 0.5
+        g = G.ProgramGen(r, 'common' if common else 'function', r.randint(1, 6), None, r.random() < 0.3)
+        yield {'multi': True, 'home': 'function', 'homes': list(MULTI_ALL if common else MULTI_PARAM), 'prog': g.program(),
+               'style': r.randint(0, 2 ** 30), 'vary': r.random() < 0.7}
     rng = ctx.rng.fork('random')
     n = ctx.pick(n_quick, 40000)
     maxsize = ctx.pick(10, 25)
@@ -109,7 +116,57 @@ def _enc(tree):
     return oal_sexp.encode(tree)
 
 
+MULTI_PARAM = ['function', 'bridge', 'operation', 'cop']
+MULTI_ALL = ['function', 'bridge', 'operation', 'cop', 'derived', 'state']
+
+
+def run_multi(case):
+    """one body in every kind of action home of ONE model, prebuilt by one prebuild_model run: every home regenerates
+    the same text, and that text parses to the original tree (modulo canon)"""
+    rig = _rig
+    body = text_of(case)
+    c1 = G.canon_py(_enc(rig.parse(body)), _EES, _CLASSES)
+    m, homes = rig.fresh()
+    for hn in case['homes']:
+        homes[hn].Action_Semantics_internal = body
+        homes[hn].Suc_Pars = 1
+    try:
+        rig.prebuild.prebuild_model(m)
+    except Exception as e:
+        if type(e) is Exception and str(e).startswith(('Unknown transient', 'Unknown identifier')):
+            return {'obs': [Sym('out-of-domain'), str(e)], 'd_fail': [], 'nontrivial': False, 'stats': {'out_of_domain': 1}}
+        raise
+    fails = []
+    texts = {}
+    for hn in case['homes']:
+        texts[hn] = rig.sourcegen.gen_text_action(homes[hn])
+    first = case['homes'][0]
+    for hn in case['homes']:
+        if texts[hn] != texts[first] and len(fails) < 3:
+            fails.append({'sig': 'home-dependent-text',
+                          'what': 'the same body regenerates differently in the %s home and in the %s home of one model\n'
+                                  '--- body\n%s\n--- %s\n%s\n--- %s\n%s' % (first, hn, body, first, texts[first], hn, texts[hn])})
+    for hn in case['homes']:
+        try:
+            c2 = G.canon_py(_enc(rig.parse(texts[hn])), _EES, _CLASSES)
+        except rig.oal.ParseException as e:
+            fails.append({'sig': 'regen-unparseable', 'what': 'the text regenerated in the %s home does not parse (%s)\n%s'
+                                                               % (hn, e, texts[hn])})
+            break
+        d = G.first_difference(c1, c2)
+        if d:
+            fails.append({'sig': 'tree-differs', 'what': 'in the %s home (one of %d actions of one model) the regenerated text '
+                                                          'parses to a different tree: %s\n--- body\n%s\n--- regenerated\n%s'
+                                                          % (hn, len(case['homes']), d, body, texts[hn])})
+            break
+    return {'obs': Sym('multi'), 'd_fail': fails[:3], 'nontrivial': True,
+            'key': 'multi:' + hashlib.sha1(body.encode()).hexdigest()[:16],
+            'stats': {'multi_action_models': 1, 'multi_actions': len(case['homes'])}}
+
+
 def run_impl(case):
+    if case.get('multi'):
+        return run_multi(case)
     rig = _rig
     text1 = text_of(case)
     tree1 = rig.parse(text1)          # generator output always parses; a ParseException here is a harness bug
@@ -121,6 +178,11 @@ def run_impl(case):
         # never a verdict: a generated case that gets here shows up as a correspondence disagreement (generator bug)
         return {'obs': [Sym('out-of-domain'), str(e)], 'd_fail': [], 'nontrivial': False, 'stats': {'out_of_domain': 1}}
     toks = [[Sym(t), v] for t, v in rig.tokens(text2)]
+    again = rig.sourcegen.gen_text_action(h)
+    if again != text2:
+        fails.append({'sig': 'regen-unstable',
+                      'what': 'generating the text of the same prebuilt action a second time gives another text\n--- first\n%s\n'
+                              '--- second\n%s' % (text2, again)})
     c2 = Sym('none')
     try:
         tree2 = rig.parse(text2)
@@ -185,6 +247,8 @@ def _kind_stats(prog, stats):
 
 
 def model_line(case):
+    if case.get('multi'):
+        return None
     tree1 = _rig.parse(text_of(case))
     return dumps([Sym('c05'), [_EES, _CLASSES, [[k, v] for k, v in sorted(G.event_meanings().items())]], _enc(tree1)])
 
